@@ -19,6 +19,7 @@ class CI:
         self.ensures = []      # (label, ast node)
         self.raises = []       # (exc class name, z3 bool 'when', label, keeps_state)
         self.modifies = []     # (ref Val, owner, field)
+        self.modifies_any = set()
         self.decreases = []    # z3 ints
         self.invariants = {}   # loop ordinal -> [(label, ast node)]
         self.loop_decreases = {}
@@ -26,7 +27,7 @@ class CI:
 
 
 class ContractMixin:
-    DIRECTIVES = {"requires", "ensures", "raises", "modifies", "modifies_all", "decreases", "invariant", "hint", "use",
+    DIRECTIVES = {"requires", "ensures", "raises", "modifies", "modifies_all", "modifies_any", "decreases", "invariant", "hint", "use",
                   "loop_decreases", "unfold", "assume_external"}
 
     # ------------------------------------------------------------------ directives
@@ -76,6 +77,10 @@ class ContractMixin:
                     if d:
                         for f in d.fields:
                             ci.modifies.append((ref, n, f))
+        elif name == "modifies_any":
+            # wildcard frame: this field may change on any object (slice verification)
+            owner, field = call.args[0].value.split(".")
+            ci.modifies_any.add((owner, field))
         elif name == "decreases":
             ci.decreases.append(self.ev1(call.args[0], st).t)
         elif name == "invariant":
@@ -205,6 +210,25 @@ class ContractMixin:
             sv.facts(st, self)
             f = {"str_init": init_seg, "str_last": last_seg, "str_first": first_seg}[name]
             return mk_str(f(args[0].t, args[1].t))
+        if name == "module":
+            return self.module_ref(z3.simplify(args[0].t).as_string())
+        if name in ("log_count", "log_arg"):
+            # ghost call log of this path: calls made through contracts since the function was entered
+            suffix = z3.simplify(args[0].t).as_string()
+            calls = [env for (q, env) in st.log if q.endswith(suffix)]
+            if name == "log_count":
+                return mk_int(len(calls))
+            argn = z3.simplify(args[1].t).as_string()
+            idx = z3.simplify(args[2].t).as_long() if len(args) > 2 else -1
+            if not calls or not (-len(calls) <= idx < len(calls)):
+                # no such call on this path: an unconstrained value of the parameter's type (nothing can be proved about it)
+                ty = Str
+                for table in (dsl.REG.contracts, dsl.REG.interfaces):
+                    for qn, d in table.items():
+                        if qn.endswith(suffix) and argn in d.params and isinstance(d.params[argn], Ty):
+                            ty = d.params[argn]
+                return fresh(ty, "nocall")
+            return calls[idx][argn]
         if name in ("rec_has", "rec_get", "rec_set"):
             rec = args[0]
             f = z3.simplify(args[1].t).as_string()
@@ -279,7 +303,7 @@ class ContractMixin:
 
     def coerce_args(self, decl, env, node, st=None):
         for n, t in decl.params.items():
-            if n in env and isinstance(t, Ty):
+            if n in env and isinstance(t, Ty) and not isinstance(env[n], Callable_):
                 v = env[n]
                 if st is not None and isinstance(v, Val) and isinstance(v.ty, TOpt) and not isinstance(t, (TOpt, TNone)):
                     # narrowing: the callee takes a plain value; None here would be a type error in the callee
@@ -307,7 +331,8 @@ class ContractMixin:
         elif self.cur_ci is not None and decl is self.cur_ci.decl and not ci.decreases:
             self.note_assumption("termination of recursive %s not proved (no decreases clause)" % decl.qualname)
         self.used_contracts.add((decl.kind, decl.qualname))
-        st.log.append((decl.qualname, env))
+        if not decl.opts.get("pure"):
+            st.log.append((decl.qualname, env))      # ghost call log (pure observers are not recorded)
         ci.old = st.snapshot()
         whens = [w for (_, w, _, _) in ci.raises if w is not None]
         for cname, when, lab, _ in ci.raises:
@@ -324,6 +349,11 @@ class ContractMixin:
         if whens and not feasible(st.pc, z3.BoolVal(True)):
             return
         # havoc the frame
+        for owner, field in ci.modifies_any:
+            fty = dsl.REG.classes[owner].fields[field]
+            key, arrs = self.heap_arrays(st, owner, field, fty)
+            st.heap[key] = [z3.Const(fresh_name("hvany_%s" % field), a.sort()) for a in arrs]
+            st.written.add(key)
         for ref, owner, field in ci.modifies:
             fty = dsl.REG.classes[owner].fields[field]
             key, arrs = self.heap_arrays(st, owner, field, fty)
@@ -339,6 +369,9 @@ class ContractMixin:
         else:
             result = fresh(decl.returns, "ret_" + callee.split(".")[-1]) if not isinstance(decl.returns, TNone) else NONE
         self.assume_wellformed_result(st, result)
+        if decl.opts.get("returns_fresh") and isinstance(result, Val) and isinstance(result.ty, TRef):
+            st.assume(z3.Not(z3.Select(ci.old.alloc, result.t)))
+            st.fresh_refs.append(result)
         for lab, enode in ci.ensures:
             st.assume(self.eval_in_contract(ci, enode, st, {"result": result}))
         yield st, result
@@ -469,6 +502,13 @@ class ContractMixin:
         ordinal = self.loop_ordinals.get(id(node))
         ci = self.cur_ci
         if ci is None or qual != self.cur_qual or ordinal is None or ordinal not in ci.invariants:
+            if kind == "for" and isinstance(iterable, Val) and isinstance(iterable.ty, (TSeq, TSet, TLSet)) and ci is not None:
+                wl, wh, _t, _r = self.discover_writes(node, st, kind, iterable)
+                if not wl and not wh and not any(isinstance(n, (ast.Return, ast.Raise, ast.Break)) for n in ast.walk(node)):
+                    # the body changes nothing that is modelled (only opaque / effect-free calls): skipping it is exact
+                    self.note_assumption("loop at line %s of %s has no modelled effect and is skipped (assumed to terminate)" % (node.lineno, qual))
+                    yield from self.exec_block(node.orelse, st)
+                    return
             raise Unsupported("loop without an invariant in %s (loop %s)" % (qual, ordinal), node)
         invs = ci.invariants[ordinal]
         ghosts = {}
